@@ -15,7 +15,7 @@ Keys == {"g", "g2"}
 NoCfg == [prio |-> 0, tk |-> FALSE, hn |-> -1, conn |-> FALSE, grace |-> 5000000, vi |-> 5000000,
           group |-> "g", h |-> 1000000, ttl |-> 3000000, cb |-> TRUE, ddur |-> 0]
 NoStop == [open |-> FALSE, variant |-> "stop", del |-> FALSE, wait |-> FALSE, bound |-> 0, at |-> 0,
-           owner |-> FALSE, late |-> FALSE, hadClaim |-> FALSE, checked |-> FALSE]
+           owner |-> FALSE, late |-> FALSE, hadClaim |-> FALSE, checked |-> FALSE, checkedOp |-> 0, checkRespAt |-> -1]
 
 I0 == [present |-> FALSE, cfg |-> NoCfg,
        started |-> FALSE, stopped |-> FALSE, stopping |-> 0, part |-> FALSE, ready |-> FALSE,
@@ -30,7 +30,7 @@ I0 == [present |-> FALSE, cfg |-> NoCfg,
        vc |-> {}, st |-> NoStop, halted |-> FALSE,
        burst |-> 0, burstT |-> -1,
        preSince |-> -1,
-       inflight |-> {}, lastEv |-> "", note |-> "", why |-> "", readyAt |-> -1, owes |-> FALSE, cut |-> FALSE, hung |-> {}, verifyAt |-> -1, nbo |-> 0, nrs |-> 0, servedSince |-> 0, hadLid |-> FALSE, reconnAt |-> -1]
+       inflight |-> {}, lastEv |-> "", note |-> "", why |-> "", readyAt |-> -1, owes |-> FALSE, cut |-> FALSE, hung |-> {}, verifyAt |-> -1, nbo |-> 0, nrs |-> 0, rnds |-> {}, servedSince |-> 0, hadLid |-> FALSE, reconnAt |-> -1]
 
 O0 == [scn |-> "", ended |-> TRUE, H |-> 1000000, TTL |-> 3000000, L |-> 0, PT |-> 5000000,
        rec |-> [k \in Keys |-> NoRec], tokens |-> {}, pend |-> {},
@@ -179,7 +179,7 @@ H_stop_call(o, e) ==
              ELSE IF e.timeout > 0 THEN e.timeout ELSE IF e.ctx > 0 THEN e.ctx ELSE 5000000
       st == [open |-> TRUE, variant |-> e.variant, del |-> e.del, wait |-> e.wait,
              bound |-> StopBound(e.variant, tmo, x.cfg.ddur, e.wait), at |-> e.t,
-             owner |-> x.claim /\ ClaimBacked(e.i, r, x.ttok) /\ r.writer = e.i, late |-> FALSE, hadClaim |-> x.claim, checked |-> FALSE]
+             owner |-> x.claim /\ ClaimBacked(e.i, r, x.ttok) /\ r.writer = e.i, late |-> FALSE, hadClaim |-> x.claim, checked |-> FALSE, checkedOp |-> 0, checkRespAt |-> -1]
   IN R([SetI(o, e.i, [x EXCEPT !.stopping = @ + 1, !.st = st, !.halted = TRUE, !.ready = FALSE, !.owes = @ \/ (x.claim /\ x.cfg.cb)]) EXCEPT !.stopSeen = TRUE], {})
 
 H_stop_ret(o, e) ==
@@ -205,11 +205,19 @@ H_op_issue(o, e) ==
       v2 == IF x.burst + 1 > 40 THEN {V("C13", "unbounded_operations_in_one_instant", e.i, e)} ELSE {}
       v3 == IF e.key # x.cfg.group THEN {V("C01", "operation_on_foreign_key", e.i, e)} ELSE {}
       v4 == IF e.depth > 2 THEN {V("C13", "unbounded_recursion_of_acquisition", e.i, e)} ELSE {}
+      \* C17: the Creates of one acquisition round (identified by its goroutine): at most four, separated by the back-off
+      \* (first back-off 50 ms - 10 %)
+      isRnd == e.kind = "create" /\ e.round > 0
+      old == {r \in x.rnds : r.g = e.round}
+      prev == IF old = {} THEN [g |-> e.round, n |-> 0, last |-> -1] ELSE CHOOSE r \in old : TRUE
+      v5 == IF isRnd /\ prev.n + 1 > 4 THEN {V("C17", "round_issues_more_than_four_creates", e.i, e)} ELSE {}
+      v6 == IF isRnd /\ prev.last >= 0 /\ e.t - prev.last < 45000 THEN {V("C17", "round_attempts_not_separated_by_backoff", e.i, e)} ELSE {}
       \* first refresh attempt issued after the record was lost (C03)
       y == [x EXCEPT !.burst = @ + 1,
+                     !.rnds = IF isRnd THEN (@ \ old) \cup {[g |-> e.round, n |-> prev.n + 1, last |-> e.t]} ELSE @,
                      !.reconnAt = IF e.kind = "get" /\ e.src = "verify" THEN -1 ELSE @,
                      !.lostHb = IF x.lostAt >= 0 /\ @ = 0 /\ e.kind = "update" THEN e.op ELSE @]
-  IN R([SetI(o, e.i, y) EXCEPT !.pend = @ \cup {op}], v1 \cup v2 \cup v3 \cup v4)
+  IN R([SetI(o, e.i, y) EXCEPT !.pend = @ \cup {op}], v1 \cup v2 \cup v3 \cup v4 \cup v5 \cup v6)
 
 \* a successful mutation by instance w
 H_mutation(o, e) ==
@@ -223,7 +231,11 @@ H_mutation(o, e) ==
       legit == LegitMutation(m, p, w, x.cfg.tk, x.cfg.prio, inStop)
       foreign == p.live /\ p.writer # w
       \* the known residual race: the owner check of this stop call read the instance's own record, which was replaced before the Delete
-      how == IF e.kind = "delete" /\ x.st.hadClaim /\ x.st.checked THEN ":replaced_between_owner_check_and_delete"
+      \* (the Delete follows the answer of the owner check at once: issued at the instant that answer arrived; a Delete that
+      \*  relies on an older owner check is a different matter)
+      fresh == \E q \in o.pend : q.op = e.op /\ q.at = x.st.checkRespAt
+      how == IF e.kind = "delete" /\ x.st.hadClaim /\ x.st.checked /\ fresh THEN ":replaced_between_owner_check_and_delete"
+             ELSE IF e.kind = "delete" /\ x.st.hadClaim /\ x.st.checked THEN ":owner_check_not_fresh_at_delete"
              ELSE IF e.kind = "delete" /\ x.st.hadClaim THEN ":without_owner_check_showing_own_record" ELSE ""
       v1 == IF ~legit THEN {V("C01", "illegitimate_" \o e.kind \o (IF foreign THEN "_of_foreign_record" ELSE "_of_own_record") \o how, w, e)} ELSE {}
       v1b == IF ~legit /\ e.kind = "update" /\ foreign /\ p.writer # "outside"
@@ -244,7 +256,7 @@ H_op_apply(o, e) ==
       \* a read issued inside a stop call that shows the stopping instance as owner (the owner check of DeleteKey)
       ownRead == e.kind = "get" /\ e.ok /\ x.st.open /\ e.cls = "payload" /\ e.id = e.i /\ e.tok = x.ttok
                  /\ \E q \in o0.pend : q.op = e.op /\ q.ins
-      o1 == IF ownRead THEN [o0 EXCEPT !.I[e.i].st.checked = TRUE] ELSE o0 IN
+      o1 == IF ownRead THEN [o0 EXCEPT !.I[e.i].st.checked = TRUE, !.I[e.i].st.checkedOp = e.op] ELSE o0 IN
   IF e.ok /\ e.kind \in {"create", "update", "delete"} THEN H_mutation(o1, e)
   ELSE R(o1, {})
 
@@ -277,7 +289,8 @@ H_op_resp(o, e) ==
       y3 == IF isV1 THEN [y2 EXCEPT !.verifyAt = e.t, !.verifyOwn = vown, !.verify = IF vown \/ ~x.claim THEN @ ELSE "failed"]
             ELSE IF isV2 THEN [y2 EXCEPT !.verifyOwn = vown, !.verify = IF vown \/ ~x.claim THEN @ ELSE "failed"]
             ELSE y2
-      y4 == [y3 EXCEPT !.inflight = @ \ {e.op}, !.hung = @ \ {e.op}]
+      y4 == [y3 EXCEPT !.inflight = @ \ {e.op}, !.hung = @ \ {e.op},
+                       !.st.checkRespAt = IF x.st.checked /\ x.st.checkedOp = e.op THEN e.t ELSE @]
       lostResp == e.lost \/ (~e.ok /\ e.err \in {"timeout", "connclosed", "noresponders"})
       o1 == SetI(o0, e.i, y4)
       o2 == IF lostResp THEN Rearm([o1 EXCEPT !.faulty = TRUE, !.hard = TRUE, !.I[e.i].cut = TRUE], e.t) ELSE o1
